@@ -285,9 +285,10 @@ static void run() {
             run_case({api, (bool)chunk, (bool)chunk, N, 0, {}, {}, 0, 0, 0}); vp::cls("invalid-n");
         }
     // long runs of one transient behaviour (a retry loop that gives up, or counts, after k repetitions shows here): k zero-length returns /
-    // EINTR / EAGAIN / one-octet transfers in a row, at the start and behind a partial transfer, chunk-style drivers, exact-N calls and the aux plumbing
-    for (int b : {0, -EINTR, -EAGAIN, 1}) for (size_t L : {8u, 15u, 16u, 17u, 31u, 32u, 33u, 63u, 64u, 65u, 100u, 127u, 128u, 129u, 255u, 256u, 257u, 1000u}) for (int shape = 0; shape < 3; shape++) {
+    // EINTR / EAGAIN / one-octet transfers in a row (runs of 8..1000, 2^16+-1, 10^6+1, 2^20+1), at the start and behind a partial transfer, chunk-style drivers, exact-N calls and the aux plumbing
+    for (int b : {0, -EINTR, -EAGAIN, 1}) for (size_t L : {8u, 15u, 16u, 17u, 31u, 32u, 33u, 63u, 64u, 65u, 100u, 127u, 128u, 129u, 255u, 256u, 257u, 1000u, 65535u, 65537u, 1000001u, 1048577u}) for (int shape = 0; shape < 3; shape++) {
         if (idx++ % a.nshards != a.shard) continue;
+        if (L > 2000 && (shape != 0 || vp::vg().on)) continue;   // a million fruitless answers in a row (a driver polling an idle line): once per behaviour
         std::vector<int> sc;
         if (shape == 1) sc.push_back(1);
         sc.insert(sc.end(), L, b);
